@@ -1054,6 +1054,42 @@ def numerics_propagate(ctx):
                        "requested_times_first_last": [0.0, 1.0], "returned_times_first_last": [float(s_dir.times[0]), float(s_dir.times[-1])]})
 
 
+def numerics_event_stamps(ctx):
+    """`_propagate_dynsys(forward=-1, event_fn=...)`: the trajectory is cut at the event; its stamps are signed like every other backward
+    trajectory (0 first, non-positive, decreasing) and every method reports the same (negative) event time."""
+    from hiten.algorithms.dynamics.base import _propagate_dynsys
+    from hiten.algorithms.types.configs import EventConfig
+    hs, hfield, _ = _poly_ham_system()
+    y0 = np.array([0.3, 0.0, 0.0, 0.2, 0.0, 0.0])      # dq1/dt = p1 > 0: going backward q1 decreases through 0
+
+    def g(t, y):
+        return y[0]
+
+    out = {}
+    for method, order in (("adaptive", 8), ("fixed", 8), ("symplectic", 6), ("symplectic", 4)):
+        ctx.case(("event-stamps", method, order), nontrivial=True, kind="event-stamps:%s" % method)
+        try:
+            sol = _propagate_dynsys(hs, y0.copy(), 0.0, 3.0, forward=-1, steps=3001, method=method, order=order,
+                                    event_fn=g, event_cfg=EventConfig(direction=0, terminal=True))
+        except Exception as ex:
+            _viol(ctx, "event-stamps-raises:%s" % method, "_propagate_dynsys(forward=-1, event_fn=...) raised %s" % type(ex).__name__, {"method": method, "order": order, "error": str(ex)[:300]})
+            continue
+        t = np.asarray(sol.times, dtype=float)
+        out[(method, order)] = t
+        if not (t[0] == 0.0 and np.all(t <= 0.0) and np.all(np.diff(t) < 0.0) and abs(float(sol.states[-1][0])) < 1e-6):
+            _viol(ctx, "backward-event-times-sign:%s" % method,
+                  "_propagate_dynsys(method=%r, forward=-1, event_fn=q1) returns times %r (expected 0 first, then negative and decreasing; q1 at the stop %.3g)" % (
+                      method, t[-3:].tolist(), float(sol.states[-1][0])),
+                  {"call": "_propagate_dynsys(hamsys, y0, 0, 3, forward=-1, steps=3001, method=%r, order=%d, event_fn=lambda t,y: y[0], event_cfg=EventConfig(direction=0, terminal=True))" % (method, order),
+                   "y0": y0.tolist(), "times_tail": t[-3:].tolist(), "q1_at_stop": float(sol.states[-1][0])})
+    ref = out.get(("adaptive", 8))
+    if ref is not None:
+        for key, t in out.items():
+            if abs(t[-1] - ref[-1]) > 1e-5:
+                _viol(ctx, "backward-event-time-disagrees:%s" % key[0], "method %s/%d stops at t=%.9g, the adaptive order-8 run at t=%.9g" % (key[0], key[1], t[-1], ref[-1]),
+                      {"method": key[0], "order": key[1], "t_stop": float(t[-1]), "t_stop_adaptive8": float(ref[-1])})
+
+
 def numerics_public(ctx):
     """the public entry point `System.propagate(..., forward=+-1)` on ONE system object (its service caches trajectories): forward then
     backward with otherwise identical arguments, and the other way round; stamps, first sample, flow at -T (SciPy reference)."""
@@ -1131,6 +1167,7 @@ def run(ctx):
     ctx.guard("validate_dense_at_zero", validate_dense_at_zero, ctx)
     numerics_lowlevel(ctx)
     numerics_propagate(ctx)
+    numerics_event_stamps(ctx)
     numerics_public(ctx)
     if "cfg" in _CACHE:
         check_cfg_against_findings(ctx, _CACHE["cfg"])
